@@ -340,6 +340,13 @@ def so_{name}({args}) -> bool:
     out.append(Cond("rerun_gives_identical_files", c16.HEAD, "rerun_identical", 600,
                     "the real pretext-to-asm CLI callback run twice on the same inputs and output template (3 cases: TPF multi-assembly, FASTA, AGP) with an unrelated run in between, on one in-memory FS: all files identical",
                     env=c16.ENV, encodes=("pretext_to_asm.cli", "pretext_to_asm.setup_logging", "pretext_to_asm.get_output_filehandle")))
+    # cache cold/warm: a cache that is not strictly newer than the FASTA, or was built from other content earlier in
+    # the same process, must not be used (C15's conditions on the model file system)
+    from vlib.props import c15
+    for c in c15.conditions(tier):
+        if c.name in ("missing_or_not_strictly_newer_is_rebuilt_together", "reindex_after_rewrite_in_the_same_process"):
+            c.name = "cache_" + c.name
+            out.append(c)
     # stream buffer size: C13's memory/stream conditions decide the output for every buffer size
     from vlib.props import c03
     for c in c03.c13_conditions(tier):
